@@ -406,7 +406,7 @@ def per_flags(c, names):
 
 # ------------------------------------------------------------------ runners
 def run_case(c):
-    rec = dict(kind=c["kind"], case=c, oracle=[], tags=[], coq=None, obs={}, size=len(c.get("vals", [])) or 1)
+    rec = dict(kind=c["kind"], case=c, oracle=[], tags=[], coq="", obs={}, size=len(c.get("vals", [])) or 1)
     fn = globals()["run_" + c["kind"]]
     fn(c, rec)
     rec["oracle"] = sorted(set(rec["oracle"]))
